@@ -250,7 +250,13 @@ class Optimizer:
             if _vt.ENABLED: _vt.emit("initial_parameter_error", opt=str(id(self)), nh=self._parameter_history.number_of_records)  # noqa: E501,E701
             raise InitialParameterError()
         elif not success:
-            self._parameters.set_from_history(self._parameter_history, -2)
+            # the last record before the failing one, skipping records with non-finite values
+            # (an optimizer which was fed non-finite penalties continues with non-finite parameters)
+            index = -2
+            records = self._parameter_history.parameters
+            while index > -len(records) and not np.all(np.isfinite(records[index])):
+                index -= 1
+            self._parameters.set_from_history(self._parameter_history, index)
             if _vt.ENABLED: _vt.emit("fallback", opt=str(id(self)), index=-2, nh=self._parameter_history.number_of_records, x=_vt.free_digest(self._parameters), xr=_vt.free_digest(self._parameters, 12))  # noqa: E501,E701
 
         result_args = {
